@@ -45,6 +45,22 @@ def run(n=150, seed=0, nedge=12):
                 cnt += 1
                 if got != op(a, b):
                     bad.append((op.__name__, width, a, b, got, op(a, b)))
+    # sparse-constant shortcuts
+    class _Sp(_FakeSpace):
+        def is_possible(self, e):
+            return self.s.check(e) == z3.sat
+    for op in (ops.or_, ops.xor, ops.and_):
+        for c in (0x451, 0x49, 0x80000001, 1, 0x8100):
+            for x in [0, 1, 0x451, 0xFFFFFFFF, 0x450, 0x10, 0x400] + [rnd.randint(0, 2**32 - 1) for _ in range(max(4, n // 4))]:
+                sp = _Sp()
+                xv = z3.Int("x")
+                sp.add(xv == x)
+                r = chplug._sparse_const(sp, op, xv, c)
+                assert sp.s.check() == z3.sat
+                got = sp.s.model().eval(r, model_completion=True).as_long()
+                cnt += 1
+                if got != op(x, c):
+                    bad.append((op.__name__, "sparse", x, c, got, op(x, c)))
     return cnt, bad
 
 
